@@ -1,7 +1,7 @@
-\* quick exhaustive config: snaps a, b (+ snapd), at most 3 changes
+\* quick exhaustive config: snaps a, b (+ snapd), at most 2 changes (every request against every single in-progress change)
 CONSTANTS
   Snaps <- MCSnaps2
-  MaxChanges = 3
+  MaxChanges = 2
 INIT Init
 NEXT Next
 CHECK_DEADLOCK FALSE
